@@ -241,7 +241,7 @@ class PathCtx:
                     self.model = self.solver.model()
                     break
                 if r != z3.unsat:
-                    raise Inconclusive('solver returned %s at a branch' % r)
+                    raise Inconclusive('solver returned %s at a branch' % r + (' [%s]' % str(conds[i])[:600].replace('\n', ' ') if os.environ.get('VERIF_DEBUG') else ''))
             if chosen is None:
                 raise Infeasible()
         base = tuple(self.decisions)
@@ -254,7 +254,7 @@ class PathCtx:
                 self.new_prefixes.append(base + (i,))
                 forked = True
             elif r != z3.unsat:
-                raise Inconclusive('solver returned %s at a branch' % r)
+                raise Inconclusive('solver returned %s at a branch' % r + (' [%s]' % str(conds[i])[:600].replace('\n', ' ') if os.environ.get('VERIF_DEBUG') else ''))
         self.pos += 1
         if forked:
             self.decisions.append(chosen)
